@@ -521,22 +521,46 @@ type c15World struct {
 	sweeps     int // identity sweeps generated so far (rotation of kinds x methods)
 	kindRot    int // start of this process' rotation through c15IdentityKinds
 	hupBarrier int
+	keepDir    bool // leave the authorisation files in place at close()
 }
 
 func c15PartKey(s string, p int32) string { return fmt.Sprintf("%s/%d", s, p) }
 
+// c15PathLayout: how the configured model and policy paths are laid out on
+// disk (regular files, symbolic links, a mounted ConfigMap, ...).  Setup
+// creates whatever holds the given model and policy text under dir and returns
+// the two paths an operator would put into the configuration.
+type c15PathLayout struct {
+	Name  string
+	Setup func(dir, model, policy string) (modelPath, policyPath string, err error)
+}
+
 // c15NewWorld starts the server with the given policy loaded at start-up
 // (cold load) and builds the default world with admin calls.
 func c15NewWorld(rep *kit.Report, tag string, pol *c15Policy) (*c15World, error) {
+	return c15NewWorldLayout(rep, tag, pol, nil)
+}
+
+// c15NewWorldLayout: the same with the authorisation files laid out by lay
+// (nil: two regular files given by absolute path).
+func c15NewWorldLayout(rep *kit.Report, tag string, pol *c15Policy, lay *c15PathLayout) (*c15World, error) {
 	w := &c15World{rep: rep, pol: pol, standing: map[string]*c15Standing{}, curNext: map[int32]int64{}, curVals: map[string]int64{}, nCurParts: 2}
 	w.dir = vfWorkDir("c15" + tag + "-authz")
-	w.modelPath = filepath.Join(w.dir, "model.conf")
-	w.policyPath = filepath.Join(w.dir, "policy.csv")
-	if err := os.WriteFile(w.modelPath, []byte(c15Model), 0644); err != nil {
-		return nil, err
-	}
-	if err := os.WriteFile(w.policyPath, []byte(pol.csv()), 0644); err != nil {
-		return nil, err
+	if lay != nil {
+		var err error
+		if w.modelPath, w.policyPath, err = lay.Setup(w.dir, c15Model, pol.csv()); err != nil {
+			return nil, fmt.Errorf("laying out the authorisation files (%s): %v", lay.Name, err)
+		}
+		w.keepDir = true // a stopped server's SIGHUP goroutine lives on and re-reads its files
+	} else {
+		w.modelPath = filepath.Join(w.dir, "model.conf")
+		w.policyPath = filepath.Join(w.dir, "policy.csv")
+		if err := os.WriteFile(w.modelPath, []byte(c15Model), 0644); err != nil {
+			return nil, err
+		}
+		if err := os.WriteFile(w.policyPath, []byte(pol.csv()), 0644); err != nil {
+			return nil, err
+		}
 	}
 	repo := os.Getenv("VERIF_REPO")
 	if repo == "" {
@@ -612,7 +636,9 @@ func (w *c15World) close() {
 	if w.c != nil {
 		w.c.Cleanup()
 	}
-	os.RemoveAll(w.dir)
+	if !w.keepDir {
+		os.RemoveAll(w.dir)
+	}
 }
 
 func (w *c15World) adminPublish(stream string, part int32, val []byte) (int64, error) {
